@@ -13,7 +13,7 @@ From Coq Require Import Reals QArith ZArith List Bool.
 From Bignums Require Import BigZ.
 From Coquelicot Require Import Coquelicot.
 From SpdVerif Require Import Base.NumOps Gen.Integration Model.Quadrature.
-From SpdVerif Require Import Proofs.C12_base Proofs.C12_simpson Proofs.C12_rule Proofs.C12_simpson2d Proofs.C12_adaptive Proofs.C12_cert Proofs.C12_expi.
+From SpdVerif Require Import Proofs.C12_base Proofs.C12_simpson Proofs.C12_rule Proofs.C12_simpson2d Proofs.C12_adaptive Proofs.C12_cert Proofs.C12_expi Proofs.C12_alias.
 Import ListNotations.
 Local Open Scope R_scope.
 
@@ -271,6 +271,38 @@ Theorem C12_adaptive_2d_reverse : forall (f : R -> R -> C) (ax bx ay by_ eps : R
   simpson_adaptive_2d Rops f ax bx by_ ay eps d = Copp (simpson_adaptive_2d Rops f ax bx ay by_ eps d).
 Proof. exact simpson_adaptive_2d_reverse. Qed.
 
+(* ---- the first level of the adaptive recursion (mechanism and exact witness class of known finding F5e).
+   With the recursion not stopped, the first level accepts iff |left + right - whole| <= 15 eps; then the Richardson value is
+   returned after exactly 5 integrand calls; otherwise (depth >= 2, left half not stopped) at least 7 calls are made. *)
+Theorem C12_adaptive_first_level : forall (f : R -> C) (a b eps : R) d, stop eps a b = false ->
+  (accept f a b eps = true <-> Cmod (delta f a b) <= 15 * eps) /\
+  (accept f a b eps = true ->
+     simpson_adaptive Rops f a b eps (S d) = richardson f a b /\
+     simpson_adaptive_calls Rops f ones1 a b eps (S d) = 5%nat) /\
+  (accept f a b eps = false -> stop (eps / 2) a ((a + b) / 2) = false ->
+     (7 <= simpson_adaptive_calls Rops f ones1 a b eps (S (S d)))%nat).
+Proof. exact first_level. Qed.
+
+(* any integrand whose five first-level samples coincide is accepted at once, for every eps > 0: result (b - a) f(a) *)
+Theorem C12_adaptive_aliased_first_level : forall (f : R -> C) (a b eps : R) (v : C) d,
+  a <= b -> 0 < eps -> stop eps a b = false -> samples_equal f a b v ->
+  simpson_adaptive Rops f a b eps (S d) = vscale Rops (b - a) v /\
+  simpson_adaptive_calls Rops f ones1 a b eps (S d) = 5%nat.
+Proof. exact aliased_first_level. Qed.
+
+(* for amp exp(ikx), amp <> 0, the five samples coincide exactly when k (b - a) / 4 is a multiple of 2 pi ... *)
+Theorem C12_adaptive_alias_family : forall (amp : C) (k a b : R), amp <> (0, 0) ->
+  (samples_equal (cexpi amp k) a b (cexpi amp k a) <-> exists j : Z, k * (b - a) / 4 = 2 * PI * IZR j).
+Proof. exact alias_family. Qed.
+
+(* ... and then the method returns (b - a) amp exp(ika) after 5 calls whatever the tolerance, while the integral is 0 *)
+Theorem C12_adaptive_alias_family_result : forall (amp : C) (k a b eps : R) (j : Z) d,
+  a <= b -> 0 < eps -> stop eps a b = false -> k * (b - a) / 4 = 2 * PI * IZR j ->
+  simpson_adaptive Rops (cexpi amp k) a b eps (S d) = vscale Rops (b - a) (cexpi amp k a) /\
+  simpson_adaptive_calls Rops (cexpi amp k) ones1 a b eps (S d) = 5%nat /\
+  (k <> 0 -> Cmult amp (expi_int k a b) = (0, 0)).
+Proof. exact alias_family_result. Qed.
+
 (* ---- accepted parameters: every divs >= 4 (in particular the property's range 4..400) is accepted by both forms, and
    whatever the 1-D form accepts the 2-D form accepts — for ALL divs, no parity hypothesis *)
 Theorem C12_accept_from4 : forall d, (4 <= d)%Z -> simpson_accepts d = true /\ simpson2d_accepts d = true.
@@ -297,6 +329,9 @@ Example C12_ex_moments : forall k, (k <= 1)%nat ->
 Proof. exact cert_example_moments. Qed.
 Example C12_ex_accept_step : accept (fun _ => (0, 0)) 0 1 1 = true.
 Proof. exact accept_zero_example. Qed.
+
+Example C12_ex_not_stopped : stop 1 0 1 = false.
+Proof. exact stop_example. Qed.
 
 Print Assumptions C12_poly_integral.
 Print Assumptions C12_simpson_is_rule.
@@ -340,6 +375,10 @@ Print Assumptions C12_adaptive_2d_terminates.
 Print Assumptions C12_adaptive_cubic_calls.
 Print Assumptions C12_adaptive_reverse.
 Print Assumptions C12_adaptive_2d_reverse.
+Print Assumptions C12_adaptive_first_level.
+Print Assumptions C12_adaptive_aliased_first_level.
+Print Assumptions C12_adaptive_alias_family.
+Print Assumptions C12_adaptive_alias_family_result.
 Print Assumptions C12_accept_from4.
 Print Assumptions C12_accept_1d_2d.
 Print Assumptions C12_accept_norm.
